@@ -4,8 +4,8 @@ C09 — model of `SimpleAsyncHTTPClient` admission control and of the redirect r
 Part A (anchors: `fetch_impl`, `_process_queue`, `_release_fetch`, `_remove_timeout`, `_on_timeout`,
 `_HTTPConnection.__init__/run/_on_timeout/_run_callback/_release/finish`): a machine over
 `queue / active / waiting` plus the open connections and their timers, driven by
-`fetch k T | connFail k | connOk k | respond k | redirect k k' | advance dt`.
-Time is a `Nat` (sixteenths of a second); `advance` fires due timers in deadline order (the harness keeps
+`fetch k T | connFail k | connOk k | respond k | redirect k k' | drop k how | advance dt`.
+Time is a `Nat` (1/1024 s); `advance` fires due timers in deadline order (the harness keeps
 deadlines distinct).  Outputs per op: keys started (in order), fetches completed (root key, how).
 
 Part B (anchors: `_HTTPConnection.run` header edits, `_should_follow_redirect`, the rewrite in `finish`):
@@ -23,6 +23,9 @@ open TornadoModel.C06
 
 inductive How where
   | ok | connFail | tmoQueue | tmoConnect | tmoRequest
+  | closed      -- the connected stream was closed before the response was complete (`HTTPStreamClosedError`)
+  | error       -- … it failed with an error (`StreamClosedError.real_error`)
+  | crash       -- a delegate callback raised (`finish()` on an unparsable `Location`, `on_connection_close` re-raising)
   deriving Repr, BEq, DecidableEq
 
 inductive Ev where
@@ -53,6 +56,7 @@ inductive Op where
   | connOk (k : Nat)
   | respond (k : Nat)
   | redirect (k k' : Nat)
+  | drop (k : Nat) (how : How)   -- the connected stream ends the request without a usable response
   | advance (dt : Nat)
   deriving Repr, BEq, DecidableEq
 
@@ -156,6 +160,15 @@ def step (s : St) : Op → St × List Ev
         (s2, evs1 ++ evs2)
       else (s, [])
     | none => (s, [])
+  | .drop k how =>
+    -- after connect: `on_connection_close` / `StreamClosedError` out of `read_response` / an exception escaping
+    -- `finish()` (before `final_callback` is handed over) → `_handle_exception` → `_run_callback`
+    match findConn s k with
+    | some c => if c.connected then
+        let (s1, evs) := release s k
+        (s1, evs ++ [.complete (s.root k) how])
+      else (s, [])
+    | none => (s, [])       -- final_callback already gone (completed / timed out): `_handle_exception` does nothing
   | .advance dt =>
     let limit := s.now + dt
     let (s1, evs) := fireTimers (s.waiting.length + s.conns.length + s.queue.length + 1) limit s
@@ -203,6 +216,8 @@ structure Hop where
   joined : Str               -- urljoin(request.url, location)
   normalized : Str           -- urlunsplit(urlsplit(joined))
   stripped : Str             -- the same with netloc replaced by host[:port]
+  joinRaises : Bool := false -- `urljoin` / `urlsplit` of the new URL raises (`ValueError`: unterminated IPv6 bracket …)
+  portRaises : Bool := false -- `.port` of the new URL raises (non-numeric / out of range) or `.hostname` is None
   deriving Repr, BEq, DecidableEq
 
 /-- data for `run()`'s header edits -/
@@ -262,16 +277,20 @@ def becomesGet (r : Req) (hp : Hop) : Bool :=
 inductive Out where
   | final                  -- the response is delivered
   | follow (r : Req)       -- `client.fetch(new_request)`
-  | crash                  -- an exception escapes finish() (header copy rejected / no Host header)
+  | crash                  -- an exception escapes finish() (Location unparsable / header copy rejected / bad port
+                           -- behind userinfo / no Host header): `final_callback` is still set there, so
+                           -- `_handle_exception` completes the fetch with a 599
   deriving Repr, BEq, DecidableEq
 
 /-- the redirect branch of `finish()`; `r.headers` are the headers after `prepare` -/
 def rewrite (r : Req) (hp : Hop) : Out :=
   if !shouldFollow r hp then .final
+  else if hp.joinRaises then .crash
   else match copy r.headers with
     | .error _ => .crash
     | .ok h0 =>
       let cross := crossOrigin hp
+      if cross && hp.newNetloc.contains 64 && hp.portRaises then .crash else
       let url := if cross then (if hp.newNetloc.contains 64 then hp.stripped else hp.normalized) else hp.joined
       let h1 := if cross then delIfPresent (delIfPresent h0 nAuthorization) nCookie else h0
       match delItem h1 nHost with
